@@ -54,6 +54,8 @@ def req_lines(kind):
     if kind in ('okSUTRA', 'okAGS'):
         from vf.checks import c07
         return c07.file_lines(c07.ex('SUTRAExample1.txt' if kind == 'okSUTRA' else 'Wanju_Yuan_Closed-Loop_Geothermal_Energy_Recovery.txt'))
+    if kind in ('ovrA', 'ovrB'):      # reference content of the override requests: the base lines (ovrB: two dropped), then the dictionary's entries
+        return [l for l in OVR_BASE if kind == 'ovrA' or l.split(',')[0].strip() not in OVR_DROP] + [f'{k}, {v}' for k, v in OVR_PARAMS.items()]
     if kind == 'okS':      # closed loop (SBT): other module classes, own numerical kernels
         return F.lines(F.sbt_base(3, 1, 2, (4, 2, 1), 5))
     if kind == 'failX':    # aborts through a bare sys.exit() inside the core (user-provided temperature profile that does not exist)
@@ -71,8 +73,11 @@ def req_lines(kind):
 
 
 EVENTS_QUICK = ['okE/c', 'okH/c', 'okA/c', 'okD/c', 'okU/c', 'okX/c', 'okDef/c', 'okOdd/c', 'okCap2/c', 'okS/c', 'hip', 'failR/c', 'failC/c', 'failP/c', 'failX/c', 'rewrite/c',
-                'rewrite:failX/c', 'rewrite@same/c', 'rewrite@older/c', 'okE/n']
-EVENTS_L3 = ['okOdd/c', 'okDef/c', 'okCap2/c', 'okU/c', 'failX/c', 'rewrite/c', 'rewrite:failX/c']
+                'rewrite:failX/c', 'rewrite@same/c', 'rewrite@older/c', 'ovrA/c', 'ovrB/c', 'okE/n']
+EVENTS_L3 = ['okOdd/c', 'okDef/c', 'okCap2/c', 'okU/c', 'failX/c', 'rewrite/c', 'rewrite:failX/c', 'ovrA/c', 'ovrB/c']
+OVR_BASE = F.lines(F.base(1, 1, 1, 4, (3, 2, 1)))
+OVR_DROP = ('Production Flow Rate per Well', 'Injection Temperature')
+OVR_PARAMS = {'Gradient 1': '47', 'Utilization Factor': '0.8'}
 WIDE_KINDS = ['okChill', 'okHP', 'okCHP42', 'okMPF', 'okLHS', 'okFlash', 'okDH2', 'okSDAC', 'okSUTRA', 'okAGS']
 EVENTS_THOROUGH = EVENTS_QUICK + ['okD2/c', 'failR/n', 'okH/n', 'rewrite:failR/c', 'okDef/n', 'rewrite:failX@same/c', 'rewrite@same/n']
 EVENTS_WIDE = EVENTS_THOROUGH + [k + '/c' for k in WIDE_KINDS]      # thorough: all histories of length <= 2 over this menu
@@ -132,11 +137,17 @@ def replay_history(arg):
                         os.utime(last['path'], ns=(st_before.st_atime_ns, st_before.st_mtime_ns - 10 * 10 ** 9))
                     path = last['path']
                     mode = mode if mode in ('c', 'n') else 'c'
+                elif kind in ('ovrA', 'ovrB'):
+                    # the client's "base file + override dictionary" request, always for the same base path and the same dictionary: ovrA writes
+                    # the full base there, ovrB a version with two lines dropped (the dropped parameters then take their defaults)
+                    path = os.path.join(tempfile.gettempdir(), 'override-base.txt')
+                    with open(path, 'w', encoding='UTF-8') as f:
+                        f.write('\n'.join(OVR_BASE if kind == 'ovrA' else [l for l in OVR_BASE if l.split(',')[0].strip() not in OVR_DROP]) + '\n')
                 else:
                     n_files['i'] += 1
                     path = str(sim.write_input(req_lines(kind), name=f'r{n_files["i"]}.txt'))
                 rec['content_kind'] = content_kind
-                params = GeophiresInputParameters(from_file_path=path)
+                params = GeophiresInputParameters(dict(OVR_PARAMS), from_file_path=path) if kind in ('ovrA', 'ovrB') else GeophiresInputParameters(from_file_path=path)
                 if mode == 'c' or kind.startswith('rewrite'):
                     last['path'], last['kind'] = path, content_kind
                 result = clients[mode].get_geophires_result(params)
@@ -316,8 +327,8 @@ def run_thorough(seed, budget=None):
         col.add(base + idx, P4[idx], tagged)
     if col.tasks < col.planned:
         col.capped = True
-    col.rule = ('explicit-state search over request histories, each replayed in one real process: ALL histories of length <= 3 over 27 events (unpruned), '
-                'all of length <= 2 over 37 events (one more request per plant / reservoir / economics family, SUTRA, AGS, S-DAC-GT), then depth 4 with process-state pruning: one representative per distinct process-state digest reached at depth 3, extended by every event. The pruning '
+    col.rule = ('explicit-state search over request histories, each replayed in one real process: ALL histories of length <= 3 over 29 events (unpruned), '
+                'all of length <= 2 over 39 events (one more request per plant / reservoir / economics family, SUTRA, AGS, S-DAC-GT), then depth 4 with process-state pruning: one representative per distinct process-state digest reached at depth 3, extended by every event. The pruning '
                 'assumption (equal digest => equal futures) is checked on every digest collision at depth <= 2 against the executed depth-3 extensions')
     col.assumptions = ['functools memo tables and the pint registry are pure caches and excluded from the state comparison',
                        'depth-4 coverage is complete only under the checked assumption that the process-state vector captures every module-level mutable the pipeline reads']
@@ -333,11 +344,11 @@ def run(tier, seed, budget=None):
     mod = sys.modules[__name__]
     r = e1.run_generic(
         mod, PID, tier, seed, budget,
-        rule=('explicit-state search over request histories, each replayed in one real process: quick = ALL histories of length <= 2 over 20 events '
+        rule=('explicit-state search over request histories, each replayed in one real process: quick = ALL histories of length <= 2 over 22 events '
               '(10 successful GEOPHIRES requests incl. add-ons, district heating, input units, output-unit directives, an all-defaults request, a many-non-defaults '
               'request, a two-segment request capped in its last segment and a closed-loop (SBT) request; HIP-RA-X; 4 failing requests that fail while reading / calculating / printing / through a bare sys.exit(); rewrite-the-file-with-other-content '
-              '(succeeding or aborting; modification time newer, unchanged or older)-and-ask-again; a non-caching client) plus ALL histories of length 3 over 7 events; thorough = all histories of length <= 3 '
-              'over 27 events + pruned depth 4; starting directory alternates. References: each request alone '
+              '(succeeding or aborting; modification time newer, unchanged or older)-and-ask-again; the base-file-plus-override-dictionary request of the client on a base that is rewritten with lines dropped; a non-caching client) plus ALL histories of length 3 over 9 events; thorough = all histories of length <= 3 '
+              'over 29 events + pruned depth 4; starting directory alternates. References: each request alone '
               'in pristine interpreters under PYTHONHASHSEED 0/1/12345 and two directories. States = digest of the process-state vector after the history'),
         assumptions=['functools memo tables are pure caches and excluded from the state comparison (reported in evidence)',
                      'result equality is on the complete parsed content of the returned result object (all categories and profile tables; metadata with paths/clock excluded) and on the full report text for HIP-RA-X'],
